@@ -23,6 +23,7 @@ def main(argv=None):
     ap.add_argument('--no-evidence', action='store_true')
     ap.add_argument('--replay', default=None)
     ap.add_argument('--no-selftest', action='store_true')
+    ap.add_argument('--findings', default=None)
     a = ap.parse_args(argv)
     prop = a.prop.upper()
     try:
@@ -34,11 +35,18 @@ def main(argv=None):
             return 2
         tier = a.tier if a.tier in ('quick', 'thorough') else 'quick'
         ctx = Ctx(prop, tier, a.root, write_evidence=not a.no_evidence)
+        ctx.findings_path = a.findings
         props.run(ctx)
         if tier == 'thorough' and not a.no_selftest:
             from pyins_sa import selftest
             selftest.run(ctx)
-        return ctx.finish()
+        rc = ctx.finish()
+        if rc == 0 and getattr(ctx, 'selftest_disagree', 0):
+            print('ANALYSIS-ERROR property=%s self-test disagreement: the rules did not give the '
+                  'expected verdict on %d variant(s) of the current tree (see SELFTEST-DISAGREE '
+                  'lines)' % (prop, ctx.selftest_disagree))
+            return 2
+        return rc
     except Exception as e:           # noqa
         name = type(e).__name__
         print('ANALYSIS-ERROR property=%s %s: %s' % (prop, name, e))
